@@ -260,7 +260,9 @@ c09=[job("file-object","aucoalesce","VH_FileObject",["C09/"],{"nsys":3,"maxpaths
 C["C09"]={"jobs":c09,"assumptions":COAL_ASSUME+["any non-empty Warnings excuses a lost field (which wording 'names the problem' is not for the check to decide)","at most one EXECVE and one SOCKADDR record per group"],
   "outside":["groups with more than 4-5 records","the regex tokenizer (C05/C12)","ECS fields"]}
 c15=[job("repeatable","aucoalesce","VH_Repeatable",["C15/"],{},Q,bounds="four concrete groups (execve with PATH/CWD/EXECVE, failed connect with SOCKADDR/PROCTITLE, USER_LOGIN, AVC+SYSCALL) through the real Parse: Data/Tags snapshots before and after, second coalesce equal, earlier event unchanged by a later coalesce")]
-C["C15"]={"jobs":c15,"assumptions":COAL_ASSUME,"outside":["arbitrary message text (C05 covers the parser's totality)","concurrent coalescing and ID resolution (planned)","ResolveIDs against real user databases"]}
+c15.append(job("concurrent-2",  "aucoalesce","VH_ConcurrentResolve",["C15/"],{"threads":2,"preemptions":2},Q,no_native=True,bounds="2 goroutines, each coalescing its own (different) group and resolving IDs against shared user/group caches; every interleaving at synchronisation operations with at most 2 preemptions; race detection (heap cells and maps) by vector clocks; results equal the sequential ones"))
+c15.append(job("concurrent-3",  "aucoalesce","VH_ConcurrentResolve",["C15/"],{"threads":3,"preemptions":2},T,no_native=True,bounds="3 goroutines, at most 2 preemptions"))
+C["C15"]={"jobs":c15,"assumptions":COAL_ASSUME,"outside":["arbitrary message text (C05 covers the parser's totality)","ResolveIDs against real user databases"]}
 
 RTF=["pid","uid","gid","auid","exit","msgtype","arch","path","exe","key","perm","filetype","a0","success","inode","subj_user","obj_uid","dir"]
 c07=[]
